@@ -862,6 +862,21 @@ func Families(tier string) []Family {
 			toks = Ts("--"+hname, hname, "c1", "sub", "w", "ws")
 			f.Defs = append(f.Defs, Def{Cfg: c, Tokens: toks, L: lim(tier, 2, 3), Disp: true, HelpF: true})
 		}
+		// few short options next to names and argument texts made of multi-byte characters: the columns of the lists are
+		// computed from byte lengths, whatever the characters are
+		for mode := 0; mode < 2; mode++ {
+			c := Cfg{Mode: mode}
+			c.Nodes = []NodeCfg{rootNode(0, false), cmdNode("añadir-日本語", 1, 0, false, true), cmdNode("ls", 1, 0, false, true)}
+			c.Nodes[0].Fn = true
+			c.Nodes[1].Desc = T("añade")
+			c.Nodes[1].Args = Ts("<ファイル名>", "<x>")
+			c.Nodes[1].ArgsD = Ts("el fichero", "")
+			out := opt("string", "出力形式", 1+mode)
+			out.Desc = T("formato")
+			c.Opts = []OptCfg{opt("bool", "é", 1), out}
+			c = WithHelp(c, "help")
+			f.Defs = append(f.Defs, Def{Cfg: c, Tokens: Ts("--help", "help", "añadir-日本語", "ls"), L: 2, Disp: true, HelpF: true})
+		}
 		fams = append(fams, f)
 	}
 
